@@ -56,7 +56,9 @@ IMPLICIT = ['1', '-17', '0x1F', '0o17', '017', '1_000', '3.14', '-.5', '1e3', '.
             'yes', 'No', 'on', 'OFF', 'null', '~', '', '2001-12-14', '2001-12-14t21:59:43.10-05:00',
             '2001-12-14 21:59:43.10 -5', '190:20:30', '0b1010', '<<', '=', '+12', '1:30']
 ESCAPES = ['\\0', '\\a', '\\b', '\\t', '\\n', '\\v', '\\f', '\\r', '\\e', '\\ ', '\\"', '\\/', '\\\\', '\\N', '\\_', '\\L',
-           '\\P', '\\x41', '\\xe9', '\\u263A', '\\u00e9', '\\U0001F600', '\\U00000041', '\\U0010FFFF']
+           '\\P', '\\x41', '\\xe9', '\\u263A', '\\u00e9', '\\U0001F600', '\\U00000041', '\\U0010FFFF',
+           # JSON-style surrogate pairs and lone surrogate escapes (what json.dumps(ensure_ascii=True) writes)
+           '\\uD83D\\uDE00', '\\ud83d\\ude00', '\\uD800', '\\uDBFF\\uDFFF', '\\uDC00x']
 TAGS = ['!!str', '!!int', '!!float', '!!map', '!!seq', '!!set', '!!omap', '!!binary', '!local', '!<tag:example.com,2000:x>',
         '!', '!!null', '!!bool', '!a%20b', '!!timestamp', '!!pairs', '!<tag:yaml.org,2002:s%74r>', '!l%C3%A9on',
         '!<tag:example.com,2000:%E2%82%AC%2Fx>', '!!s%74r']
